@@ -1055,12 +1055,18 @@ def main(tier=None, replay=None):
             return 1
         return 0
 
+    run(ck, rnd, fx, set(filter(None, os.environ.get("X02_ONLY", "").split(","))))     # X02_ONLY: development aid
+    return ck.finish()
+
+
+def run(ck: Check, rnd, fx, only):
+    """All object worlds (only = empty) or the named ones; reports through `ck` (C20 runs the libration-point worlds this way:
+    the libration point is one of the objects its statement names)."""
     q = ck.quick
     t = ck.tier
     wd = workdir("x02")
     dm = {"DictMode": live_dictmode()}
-    ck.part("make_key", dict_mode=dm["DictMode"])
-    only = set(filter(None, os.environ.get("X02_ONLY", "").split(",")))       # development aid: restrict the objects
+    ck.part("make_key_x02", dict_mode=dm["DictMode"])
     want = lambda n: not only or n in only
     from concurrent.futures import ThreadPoolExecutor
     with MemoDynsys(), CacheRecorder() as rec, ThreadPoolExecutor(max_workers=6) as pool:
@@ -1099,7 +1105,7 @@ def main(tier=None, replay=None):
         for plan in plans:
             run_object(ck, plan, rnd)
 
-    ck.cov["rule"] = ("per object: one shortest history per distinct state of the TLC model of the working tree (VIEW without the "
+    ck.cov["rule"] = (ck.cov.get("rule") or "") + (" || " if ck.cov.get("rule") else "") + ("per object: one shortest history per distinct state of the TLC model of the working tree (VIEW without the "
                       "history; sampled down to a budget, seeded by VERIF_SEED), every writer out of every core state followed by "
                       "the whole read battery (probe modules, never sampled), and one shortest history per class of state in which "
                       "TLC finds a requirement invariant false; every step of every history is compared with a fresh twin; "
@@ -1115,7 +1121,6 @@ def main(tier=None, replay=None):
         "while histories run, the CR3BP vector-field factories are memoised by (mu, name) (record.MemoDynsys); service caches are untouched",
         "option/config attributes are observed through the private attributes (the public getters materialise defaults)",
     ]
-    return ck.finish()
 
 
 def live_dictmode():
